@@ -1,7 +1,9 @@
 ----------------------------- MODULE ChainPropMC -----------------------------
 EXTENDS ChainProp, TLC
 CONSTANTS MaxN, MaxF
-Init == \E s \in Shapes, k \in {"ok", "err"} : InitWith([shape |-> s, kind |-> k])
+Extras == {"none", "pre", "post", "both"}
+Init == \E s \in Shapes, k \in {"ok", "err"}, x \in Extras :
+            (s \in Cascade \cup Stepwise \/ x = "none") /\ InitWith([shape |-> s, kind |-> k, extra |-> x])
 DoBegin == \E m \in 1..MaxN : Begin(m)
 DoObserve == \E f \in 1..MaxF : Observe(f)
 DoEnd == End
